@@ -1024,6 +1024,7 @@ func main() {
 		short := append(allSeqs(alphabet(2), depth), allSeqs(alphabet(1), depth+1)...)
 		suffix := allSeqs(alphabet(2), 2)
 		warm := []op{{K: "bindw"}, {K: "bindr"}, {K: "bind", X: 1}, {K: "traffic", X: 1}}
+		reopened := append(append([]op{}, warm...), op{K: "close"}, op{K: "bind", X: 1}, op{K: "traffic", X: 1})
 		full := alphabet(3)
 		nRand := o.Scale(120, 1500)
 		for _, k := range kinds {
@@ -1032,6 +1033,12 @@ func main() {
 			}
 			for _, s := range suffix {
 				add(k.id, append(append([]op{}, warm...), s...), 0, "warm+exhaustive")
+				// the same after a Close: what the interceptor still does once closed
+				add(k.id, append(append(append([]op{}, warm...), op{K: "close"}), s...), 0, "closed+exhaustive")
+			}
+			// use after Close: bind and send again, then one more call
+			for _, o1 := range alphabet(2) {
+				add(k.id, append(append([]op{}, reopened...), o1), 0, "reopened")
 			}
 			for i := 0; i < nRand; i++ {
 				n := 4 + rng.Intn(4)
